@@ -36,7 +36,13 @@ theorem rt (cfg : Cfg) (ver : Ver) (e : Endian) : (t : Ty) → (v : Val) → wfV
     simp only [maxSize] at hs
     simp only [de, ser]
     exact dStr_wStr ver e bs pos rest h (by omega)
-  | .enum hd ls, .num n, h, _ => by
+  | .wstr, .list us, h, hs => by
+    intro pos rest
+    simp only [wfVal, Bool.and_eq_true, List.all_eq_true] at h
+    simp only [maxSize] at hs
+    simp only [de, ser]
+    exact dWStr_wWStr ver e us pos rest h.1 h.2 (by omega)
+  | .enum hd ls _, .num n, h, _ => by
     intro pos rest
     simp only [wfVal, Bool.and_eq_true, decide_eq_true_eq] at h
     obtain ⟨⟨hh, hn⟩, hl⟩ := h
@@ -172,12 +178,57 @@ theorem rt (cfg : Cfg) (ver : Ver) (e : Endian) : (t : Ty) → (v : Val) → wfV
       rw [seek1_sentinel cfg h61 e _ hC _ hal rest]
       simp only [Res.bind]
       rw [emit1_align cfg h61 e _ pos]
+  | .union disc bs, .struct fs, h, hs => by
+    intro pos rest
+    simp only [wfVal] at h
+    split at h
+    · rename_i d id v
+      simp only [Bool.and_eq_true, beq_iff_eq] at h
+      obtain ⟨⟨⟨⟨hp, hdk⟩, hsome⟩, hsel⟩, hb⟩ := h
+      simp only [maxSize] at hs
+      obtain ⟨i, hi⟩ := Option.isSome_iff_exists.mp hsome
+      rw [hi] at hsel
+      simp only [de, ser, List.append_assoc]
+      rw [dPrim_wPrim ver e disc d pos _ hp]
+      simp only [Res.bind, hdk, Bool.not_true, Bool.false_eq_true, if_false, hsel]
+      exact rtB cfg ver e d bs id v hb (by omega) i hi _ rest
+    · simp at h
+  | .union _ _, .num _, h, _ | .union _ _, .str _, h, _ | .union _ _, .list _, h, _ | .union _ _, .absent, h, _ => by simp [wfVal] at h
   | .prim _, .str _, h, _ | .prim _, .list _, h, _ | .prim _, .struct _, h, _ | .prim _, .absent, h, _ => by simp [wfVal] at h
   | .str, .num _, h, _ | .str, .list _, h, _ | .str, .struct _, h, _ | .str, .absent, h, _ => by simp [wfVal] at h
-  | .enum _ _, .str _, h, _ | .enum _ _, .list _, h, _ | .enum _ _, .struct _, h, _ | .enum _ _, .absent, h, _ => by simp [wfVal] at h
+  | .enum _ _ _, .str _, h, _ | .enum _ _ _, .list _, h, _ | .enum _ _ _, .struct _, h, _ | .enum _ _ _, .absent, h, _ => by simp [wfVal] at h
+  | .wstr, .num _, h, _ | .wstr, .str _, h, _ | .wstr, .struct _, h, _ | .wstr, .absent, h, _ => by simp [wfVal] at h
   | .seq _, .num _, h, _ | .seq _, .str _, h, _ | .seq _, .struct _, h, _ | .seq _, .absent, h, _ => by simp [wfVal] at h
   | .arr _ _, .num _, h, _ | .arr _ _, .str _, h, _ | .arr _ _, .struct _, h, _ | .arr _ _, .absent, h, _ => by simp [wfVal] at h
   | .struct _ _, .num _, h, _ | .struct _ _, .str _, h, _ | .struct _ _, .list _, h, _ | .struct _ _, .absent, h, _ => by simp [wfVal] at h
+/-- the selected branch of a union: decoded with the type of the branch the discriminator selects, which is the branch
+    the writer set -/
+theorem rtB (cfg : Cfg) (ver : Ver) (e : Endian) (d : Nat) : (bs : Bs) → (id : Nat) → (v : Val) →
+    wfB cfg ver bs id v = true → maxSizeB bs id v < 2 ^ 32 → ∀ i, bs.firstIdx id = some i → ∀ (pos : Nat) (rest : Bytes),
+    deAt cfg ver e d bs i ⟨(serB cfg ver e bs id v pos).1 ++ rest, pos⟩ =
+      .ok (.struct [.num d, .num id, v]) ⟨rest, (serB cfg ver e bs id v pos).2⟩
+  | .nil, _, _, h, _, _, _, _, _ => by simp [wfB] at h
+  | .cons id' ls df t r, id, v, h, hs, i, hi, pos, rest => by
+    simp only [wfB] at h
+    simp only [Bs.firstIdx] at hi
+    simp only [maxSizeB] at hs
+    by_cases hid : (id' == id) = true
+    · simp only [hid, if_true] at h hi hs
+      injection hi with hi
+      subst hi
+      have hrt := rt cfg ver e t v h hs pos rest
+      have hid' : id' = id := beq_iff_eq.mp hid
+      subst hid'
+      simp only [serB, beq_self_eq_true, if_true, deAt, hrt, Res.map]
+    · have hf : (id' == id) = false := by simpa using hid
+      simp only [hf, Bool.false_eq_true, if_false] at h hi hs
+      cases hj : Bs.firstIdx id r with
+      | none => simp [hj] at hi
+      | some j =>
+        simp only [hj, Option.map_some, Option.some.injEq] at hi
+        subst hi
+        simp only [serB, hf, Bool.false_eq_true, if_false, deAt]
+        exact rtB cfg ver e d r id v h hs j hj pos rest
 theorem rtF (cfg : Cfg) (ver : Ver) (e : Endian) : (ms : Ms) → (fs : List Val) → wfFs cfg ver ms fs = true →
     maxSizeMs ms fs < 2 ^ 32 → ∀ (app : Bool) (pos : Nat) (rest : Bytes),
     deF cfg ver e app ms ⟨(serF cfg ver e ms fs pos).1 ++ rest, pos⟩ = .ok fs ⟨rest, (serF cfg ver e ms fs pos).2⟩
